@@ -80,6 +80,10 @@ def parseFtsOp (toks : List String) : Option Fts.Op :=
     let e ← nat? rest "e"
     if e ≥ 2 then none
     else some (.new (← nat? rest "s") (← nat? rest "n") e (← parseWords ((kv? rest "w").getD "")))
+  | "newx" :: rest => do
+    -- a row created without any text field: no text
+    let e ← nat? rest "e"
+    if e ≥ 2 then none else some (.new (← nat? rest "s") (← nat? rest "n") e [])
   | "upd" :: rest => do some (.upd (← nat? rest "s") (← nat? rest "n") (← parseWords ((kv? rest "w").getD "")))
   | "clr" :: rest => do some (.clr (← nat? rest "s") (← nat? rest "n"))
   | "del" :: rest => do some (.del (← nat? rest "s") (← nat? rest "n"))
